@@ -258,7 +258,7 @@ def _remove_pockets_on_one_side_of_the_pinch(
                 else:
                     i_0 += n_int_added
 
-            j_rng = range(i_0 + 1, i + 1) if is_above_pinch else range(i + 1, i_0)
+            j_rng = range(i_0 + 1, i + 1) if is_above_pinch else range(i + n_int_added, i_0)
             for j in j_rng:
                 H_NP_vals[j] = H_vals[i_0]
 
